@@ -83,12 +83,14 @@ func (m UnitMetadataMap) GetBetter(unit string) int {
 		}
 		return 0
 	}
-	// Fall back to some built-in defaults.
-	switch unit {
-	case "ns/op", "sec/op":
+	// Fall back to some built-in defaults. Like the metadata itself,
+	// these are keyed by the tidied unit.
+	_, tidyUnit := benchunit.Tidy(1, unit)
+	switch tidyUnit {
+	case "sec/op":
 		// This measures "duration", so lower is better.
 		return -1
-	case "MB/s", "B/s":
+	case "B/s":
 		// This measures "speed", so higher is better.
 		return 1
 	case "B/op", "allocs/op":
